@@ -2271,7 +2271,9 @@ class Core(composites.Composite):
 
         self.setBlockMassParams()
 
-        self.p.maxAssemNum = self.getMaxParam("assemNum")
+        if not dbLoad:
+            # (a loaded core keeps the stored number: the highest one may have left the core)
+            self.p.maxAssemNum = self.getMaxParam("assemNum")
 
         getPluginManagerOrFail().hook.onProcessCoreLoading(
             core=self, cs=cs, dbLoad=dbLoad
